@@ -318,6 +318,7 @@ def stmtTable : List (String × String × List String) := [
   ("rset", "Tx.deleteKey", Generated.txStmts_rset_Tx_deleteKey),
   ("rset", "Tx.selectElems", Generated.txStmts_rset_Tx_selectElems),
   ("rset", "Tx.store", Generated.txStmts_rset_Tx_store),
+  ("rset", "countDistinct", Generated.txStmts_rset_func_countDistinct),
   ("rset", "newScanner", Generated.txStmts_rset_func_newScanner),
   ("rstring", "SetCmd.Run", Generated.txStmts_rstring_SetCmd_Run),
   ("rstring", "SetCmd.run", Generated.txStmts_rstring_SetCmd_run),
@@ -370,6 +371,7 @@ def stmtTable : List (String × String × List String) := [
   ("rzset", "UnionCmd.Store", Generated.txStmts_rzset_UnionCmd_Store),
   ("rzset", "UnionCmd.run", Generated.txStmts_rzset_UnionCmd_run),
   ("rzset", "UnionCmd.store", Generated.txStmts_rzset_UnionCmd_store),
+  ("rzset", "countDistinct", Generated.txStmts_rzset_func_countDistinct),
   ("rzset", "newScanner", Generated.txStmts_rzset_func_newScanner),
   ("rzset", "scanItem", Generated.txStmts_rzset_func_scanItem)]
 
